@@ -24,7 +24,7 @@ RULE = ("Enumerated part: EVERY distinct crash point (function x first/last call
 ASSUMPTIONS = ["a fault injected on entry of the restoring function itself (auxiliary._clean_up) is counted and not judged",
                "crash points are enumerated at function-call granularity of the Python pipeline (not inside numba/scipy kernels)",
                "added columns are not violations (the property speaks of values and rows); dtype-only changes are ignored",
-               "b2b VSC / DC buses are not generated yet"]
+               "DC elements appear only in one fixed fixture (two VSC converters on a DC line); b2b VSC is not covered"]
 
 CLEANUP_CODE = {"auxiliary._clean_up"}
 PROFILE = netgen.profile(dcline=True, oos=0.04, open_prob=0.15, nb_max=8, max_per_bus=2, second_slack=False, noslack_island=False,
@@ -110,6 +110,13 @@ def enumerate_cases(tier):
         for name, n, when in faults.distinct_points(trace):
             cases.append(dict(base, fault={"kind": "injected", "name": name, "n": n, "when": when,
                                             "exc": "interrupt" if len(cases) % 3 == 2 else "exception"}))
+    # fixture with DC elements (VSC converters): plain runs and a handful of crash points, two per-unit bases
+    for sn in (1.0, 100.0):
+        base = {"recipe": {"sn_mva": sn, "buses": [], "el": []}, "fixture": "vsc", "calc": "runpp", "fault": {"kind": "none"},
+                "tap_table": False, "sel": 0}
+        cases.append(base)
+        for name in ("build_bus._build_bus_ppc", "pd2ppc._pd2ppc", "powerflow._ppci_to_net", "results._extract_results"):
+            cases.append(dict(base, fault={"kind": "injected", "name": name, "n": 1, "when": "after", "exc": "exception"}))
     _ENUM_CACHE[tier] = cases
     return cases
 
@@ -262,15 +269,36 @@ def classify(diffs, raised):
     return "%s/%s/%s" % (head, kind, "raise" if raised else "return")
 
 
+def build_vsc_net(sn_mva):
+    """HVDC link of two VSC converters (netgen has no DC elements): one converter controls the DC voltage, the other the power"""
+    import pandapower as pp
+    net = pp.create_empty_network(sn_mva=sn_mva)
+    pp.create_buses(net, 3, 110.)
+    pp.create_line_from_parameters(net, 0, 1, 30., 0.0487, 0.13823, 160., 0.664)
+    pp.create_line_from_parameters(net, 0, 2, 30., 0.0487, 0.13823, 160., 0.664)
+    pp.create_ext_grid(net, 0)
+    pp.create_load(net, 2, 10., 5.)
+    pp.create_bus_dc(net, 110., "A")
+    pp.create_bus_dc(net, 110., "B")
+    pp.create_line_dc_from_parameters(net, 0, 1, 100., 0.1, 1.)
+    pp.create_vsc(net, 1, 0, 0.1, 5., 0.15, control_mode_ac="vm_pu", control_value_ac=1., control_mode_dc="vm_pu", control_value_dc=1.02)
+    pp.create_vsc(net, 2, 1, 0.1, 5., 0.15, control_mode_ac="vm_pu", control_value_ac=1., control_mode_dc="p_mw", control_value_dc=5.)
+    return net
+
+
 def check(case):
     res = Result()
     faults.install()
-    recipe = decorate(case["recipe"])
     calc, fault = case["calc"], case["fault"]
     res.label("calc:" + calc, "fault:" + fault["kind"])
     try:
-        net, maps = netgen.build(recipe)
-        prepare(net, maps, case)
+        if case.get("fixture") == "vsc":
+            net, maps = build_vsc_net(case["recipe"]["sn_mva"]), {}
+            res.label("fixture:vsc")
+        else:
+            recipe = decorate(case["recipe"])
+            net, maps = netgen.build(recipe)
+            prepare(net, maps, case)
     except Exception as e:
         res.skipped = "build-rejected:" + type(e).__name__
         return res
@@ -319,7 +347,7 @@ def check(case):
     if diffs:
         res.fail(classify(diffs, raised is not None), calc=calc, diffs=diffs[:6],
                  raised=repr(raised)[:200] if raised is not None else None, plan=plan)
-    special = len(net.dcline) > 0 or case.get("tap_table")
+    special = len(net.dcline) > 0 or case.get("tap_table") or case.get("fixture")
     res.nontrivial = raised is not None or bool(special)
     res.label("outcome:" + ("raised" if raised is not None else "returned"))
     if len(net.dcline):
